@@ -790,8 +790,11 @@ class REPEX_state:
             fracs = [str(i) for i in self.traj_data[key]["frac"]]
             self.config["current"]["frac"][str(key)] = fracs
 
-        with open("./restart.toml", "wb") as f:
+        # write to a temporary file and rename it, so that a restart file
+        # is never left half-written if the program dies here
+        with open("./restart.toml.tmp", "wb") as f:
             tomli_w.dump(self.config, f)
+        os.replace("./restart.toml.tmp", "./restart.toml")
 
     def write_pattern(self, md_items):
         """Pattern writer."""
